@@ -68,6 +68,8 @@ pub struct ProcSlot {
     delivered: Option<i32>,
     /// the process was crashed by the simulator (`crash_proc`): its thread never runs sozu code again
     pub crashed: bool,
+    /// a spawned process does not start before this virtual time (exec + start-up of a real process take time)
+    pub start_at: u64,
 }
 
 enum Sched {
@@ -306,6 +308,13 @@ pub struct ConnectRec {
 pub struct World {
     /// unique per World instance in this OS process (see BATON)
     pub generation: u64,
+    /// SO_REUSEPORT emulation (cluster tier): a second bind of a stream address succeeds on its own socket with its own
+    /// accept queue, and every incoming connection goes to ONE live member of the group, chosen by the run's PRNG (the
+    /// kernel hashes the 4-tuple). Off for the single-worker engines, where a duplicate bind is EADDRINUSE.
+    pub reuseport: bool,
+    /// address -> highest member index handed out (member 0 is the plain listener name, member k is `<name>/r<k>`)
+    pub reuse_members: BTreeMap<SocketAddr, u32>,
+    net_rng: Prng,
     pub seed: u64,
     pub now: u64,
     pub sched: Prng,
@@ -370,6 +379,9 @@ impl World {
         let n = RUNCTR.fetch_add(1, std::sync::atomic::Ordering::SeqCst);
         Box::new(World {
             generation: WORLD_GEN.fetch_add(1, std::sync::atomic::Ordering::SeqCst),
+            reuseport: false,
+            reuse_members: BTreeMap::new(),
+            net_rng: Prng::derive(seed, "net/reuseport"),
             seed,
             now: 1000 * SEC, // monotonic clock starts at 1000 s so `now - timeout` never underflows
             sched: Prng::derive(seed, "sched"),
@@ -496,10 +508,28 @@ impl World {
         if let Err(e) = sys::bind_abstract(fd, &name) { sys::close(fd); return Err(e); }
         if let Some(sb) = sndbuf { let _ = sys::setsockopt_int(fd, libc::SOL_SOCKET, libc::SO_SNDBUF, sb); }
         let lname = self.listener_name(dst);
-        match sys::connect_abstract(fd, &lname) {
-            Ok(()) => Ok(fd),
-            Err(e) => { sys::close(fd); Err(e) }
+        let members = self.reuse_members.get(dst).copied().unwrap_or(0);
+        if members == 0 {
+            return match sys::connect_abstract(fd, &lname) {
+                Ok(()) => Ok(fd),
+                Err(e) => { sys::close(fd); Err(e) }
+            };
         }
+        // a reuseport group: one live member gets the connection
+        let n = members as u64 + 1;
+        let start = self.net_rng.below(n);
+        let mut last = libc::ECONNREFUSED;
+        for i in 0..n {
+            let k = (start + i) % n;
+            let mut name = lname.clone();
+            if k > 0 { name.extend_from_slice(format!("/r{k}").as_bytes()); }
+            match sys::connect_abstract(fd, &name) {
+                Ok(()) => { self.tr(0xB3, k); return Ok(fd); }
+                Err(e) => { last = e; if e != libc::ECONNREFUSED { break; } }
+            }
+        }
+        sys::close(fd);
+        Err(last)
     }
     /// Create a simulated listener (for backend actors).
     pub fn peer_listen(&mut self, addr: &SocketAddr) -> Result<i32, i32> {
@@ -689,7 +719,7 @@ impl World {
             spins += 1;
             self.run_actors(k);
             // a process that has been spawned but has not started yet is always ready to run
-            if let Some(q) = (0..self.procs.len()).find(|i| self.procs[*i].state == P_STARTING) {
+            if let Some(q) = (0..self.procs.len()).find(|i| self.procs[*i].state == P_STARTING && self.procs[*i].start_at <= self.now) {
                 self.procs[q].state = P_RUNNING;
                 self.trace.mix(0x5A ^ ((q as u64) << 8));
                 return Sched::Handoff(q);
@@ -720,7 +750,8 @@ impl World {
             }
             // quiescent: advance virtual time to the next actor wake-up or process deadline
             let min_deadline = order.iter().map(|i| self.procs[*i].deadline).min().unwrap_or(u64::MAX);
-            let next = self.next_wake().unwrap_or(u64::MAX).min(min_deadline);
+            let min_start = self.procs.iter().filter(|p| p.state == P_STARTING).map(|p| p.start_at).min().unwrap_or(u64::MAX);
+            let next = self.next_wake().unwrap_or(u64::MAX).min(min_deadline).min(min_start);
             if next == u64::MAX {
                 // everybody sleeps forever and nobody will ever act: end of the world
                 self.abort("deadlock");
@@ -952,14 +983,31 @@ impl World {
         };
         let name = if ty == libc::SOCK_STREAM { self.listener_name(&addr) } else { self.udp_name(&addr) };
         if let Err(e) = sys::bind_abstract(nfd, &name) {
-            sys::close(nfd);
-            sys::set_errno(if e == libc::EADDRINUSE { libc::EADDRINUSE } else { e });
-            return -1;
+            let mut bound = false;
+            if e == libc::EADDRINUSE && self.reuseport && ty == libc::SOCK_STREAM {
+                for k in 1..=16u32 {
+                    let mut alt = name.clone();
+                    alt.extend_from_slice(format!("/r{k}").as_bytes());
+                    if sys::bind_abstract(nfd, &alt).is_ok() {
+                        let m = self.reuse_members.entry(addr).or_insert(0);
+                        if *m < k { *m = k; }
+                        bound = true;
+                        self.tr(0xB2, k as u64);
+                        break;
+                    }
+                }
+            }
+            if !bound {
+                sys::close(nfd);
+                sys::set_errno(if e == libc::EADDRINUSE { libc::EADDRINUSE } else { e });
+                return -1;
+            }
         }
         let _ = sys::dup3(nfd, fd, libc::O_CLOEXEC);
         sys::close(nfd);
         self.sozu_fds.insert(fd, if ty == libc::SOCK_STREAM { 'l' } else { 'u' });
         self.tr(0xB1, addr.port() as u64);
+        if self.log_on { let m = self.reuse_members.get(&addr).copied().unwrap_or(0); self.logf(|| format!("sozu bind fd={fd} {addr} (reuseport members beyond the first: {m})")); }
         0
     }
 
